@@ -164,7 +164,8 @@ def key_of(res, declared_msg_shapes, with_detail=True):
     """canonical hashable key; messages only when the source shape declares sh:message"""
     key = (res["focus"], res["value"], res["path"], res["component"], res["shape"], res["severity"], res.get("source", "-"))
     if res["shape"] in declared_msg_shapes or res.get("source", "-") in declared_msg_shapes:
-        key += (tuple(res["messages"]),)
+        # sh:resultMessage values are triples of the report graph: a set (two templates that fill to the same literal give one)
+        key += (tuple(sorted(set(res["messages"]))),)
     if with_detail:
         key += (tuple(sorted(key_of(d, declared_msg_shapes, with_detail) for d in res["detail"])),)
     return key
